@@ -19,6 +19,156 @@ ONETHREAD_SIG = "C02-internal-backend-1-thread-schedule-not-run-without-caller-w
 REINIT_SIG = "C02-internal-reinit-followup-goes-to-uninitialised-scheduler"
 
 
+# ------------------------------------------------------------------------------------------ inventory closure
+# Every declaration of the anchored files (enumerated from the clang AST under each backend define on every run, tools/declinv)
+# -> the theorems and harness operations that cover it, or an explicit out-of-scope reason.  b = backends under whose define the
+# declaration exists.  ops: "<mode>" (any backend), "<backend>:<mode>", "script:<AsyncTask client script>", "fact:<probe>".
+_AT_T = ["asynctask_lifetime_safe", "asynctask_safe_src"]
+_SCHED_OPS = ["burst", "parkburst", "nested", "arena", "steal", "wakeup"]
+_ALLB = "dbg,int,omp,tbb"
+_TS = "detail/enkiTS/TaskScheduler.cpp"
+_C01 = "covered by C01 (parallel_for / the enkiTS scheduler model): not used by schedule(), async() or AsyncTask"
+COVER = {
+    ("AsyncTask.h", "class-template", "AsyncTask", "struct"): dict(b=_ALLB, thms=_AT_T + ["asynctask_member_order_old_refuted"], ops=["asynctask", "fact:not_copyable_not_movable"]),
+    ("AsyncTask.h", "ctor", "AsyncTask::<ctor>", "void (std::function<T ()>)"): dict(b=_ALLB, thms=_AT_T + ["asynctask_fcn_once", "glue_code_shape_src"], ops=["asynctask", "destroy", "int:ownerthief"]),
+    ("AsyncTask.h", "dtor", "AsyncTask::<dtor>", "void () noexcept virtual"): dict(b=_ALLB, thms=["asynctask_dtor_joins", "asynctask_safe_src"], ops=["asynctask", "destroy", "script:drop"]),
+    ("AsyncTask.h", "field", "AsyncTask::jobFinished", "std::atomic<bool>"): dict(b=_ALLB, thms=["asynctask_flag_publishes_src", "asynctask_finished_nonblocking"], ops=["script:finget", "omp:asynctask"]),
+    ("AsyncTask.h", "field", "AsyncTask::retValue", "T"): dict(b=_ALLB, thms=["asynctask_get_value", "asynctask_trace_accepted", "asynctask_trace_accepted_src"], ops=["asynctask"]),
+    ("AsyncTask.h", "field", "AsyncTask::taskImpl", "detail::AsyncTaskImpl<std::function<void ()>>"): dict(b=_ALLB, thms=_AT_T, ops=["asynctask", "destroy"]),
+    ("AsyncTask.h", "method", "AsyncTask::finished", "bool () const"): dict(b=_ALLB, thms=["asynctask_finished_nonblocking", "asynctask_flag_publishes_src"], ops=["script:finget", "script:finfinget", "script:waitget"]),
+    ("AsyncTask.h", "method", "AsyncTask::get", "T ()"): dict(b=_ALLB, thms=["asynctask_get_value", "asynctask_finished_nonblocking"], ops=["script:get", "script:getget", "script:finget"]),
+    ("AsyncTask.h", "method", "AsyncTask::valid", "bool () const"): dict(b=_ALLB, thms=["asynctask_flag_publishes_src"], ops=["script:finfinget"],
+                                                                             note="same body as finished(): its load of the flag is in flag_load_orders_src"),
+    ("AsyncTask.h", "method", "AsyncTask::wait", "void ()"): dict(b=_ALLB, thms=["asynctask_no_deadlock", "asynctask_safe_src"], ops=["script:waitget"]),
+    ("async.h", "alias-template", "operator_return_t", "typename std::result_of<TASK_T ()>::type"): dict(b=_ALLB, thms=["async_future_value_src"], ops=["async"]),
+    ("async.h", "function-template", "async", "auto (TASK_T &&) -> std::future<operator_return_t<TASK_T>>"): dict(
+        b=_ALLB, thms=["async_heap_task_deleted_once_src", "async_future_value_src", "glue_code_shape_src"], ops=["async"]),
+    ("detail/TaskSys.cpp", "function", "detail::initTaskSystemInternal", "void (int)"): dict(b="int", thms=["teardown_runs_everything_exactly_once_src", "shutdown_order_src"], ops=["int:teardown"]),
+    ("detail/TaskSys.cpp", "function", "detail::numThreadsTaskSystemInternal", "int ()"): dict(b="int", skip="thread-count query: covered by C13 (facts_denote_report_src)"),
+    ("detail/TaskSys.cpp", "function", "detail::scheduleTaskInternal", "void (detail::Task *)"): dict(b="int", thms=["schedule_once_internal", "schedule_internal_burst_exactly_once"], ops=["int:burst", "int:parkburst"]),
+    ("detail/TaskSys.cpp", "function", "detail::waitInternal", "void (detail::Task *)"): dict(b="int", thms=["asynctask_dtor_joins", "glue_code_shape_src"], ops=["int:asynctask", "int:ownerthief"]),
+    ("detail/TaskSys.cpp", "variable", "detail::g_ts", "std::unique_ptr<enki::TaskScheduler> static"): dict(b="int", thms=["shutdown_order_src"], ops=["int:teardown"]),
+    ("detail/TaskSys.h", "alias", "detail::Task", "enki::ITaskSet"): dict(b="int", thms=["schedule_internal_no_uaf_src"], ops=["int:burst"]),
+    ("detail/TaskSys.h", "class", "detail::parallel_for_internal()::LocalTask", "struct : detail::Task"): dict(b="int", skip=_C01),
+    ("detail/TaskSys.h", "ctor", "detail::parallel_for_internal()::LocalTask::<ctor>", "void (int, TASK_T &&)"): dict(b="int", skip=_C01),
+    ("detail/TaskSys.h", "dtor", "detail::parallel_for_internal()::LocalTask::<dtor>", "void () =default"): dict(b="int", skip=_C01),
+    ("detail/TaskSys.h", "field", "detail::parallel_for_internal()::LocalTask::t", "const TASK_T &"): dict(b="int", skip=_C01),
+    ("detail/TaskSys.h", "method", "detail::parallel_for_internal()::LocalTask::ExecuteRange", "void (enki::TaskSetPartition, uint32_t)"): dict(b="int", skip=_C01),
+    ("detail/TaskSys.h", "function-template", "detail::parallel_for_internal", "void (int, TASK_T &&)"): dict(b="int", skip=_C01),
+    ("detail/TaskSys.h", "class", "detail::schedule_internal()::LocalTask", "struct : detail::Task"): dict(
+        b="int", thms=["schedule_internal_no_uaf", "schedule_internal_no_uaf_src", "schedule_internal_freed_once"], ops=["int:burst", "int:nested"]),
+    ("detail/TaskSys.h", "ctor", "detail::schedule_internal()::LocalTask::<ctor>", "void (TASK_T &&)"): dict(b="int", thms=["schedule_internal_task_life_src"], ops=["int:burst"]),
+    ("detail/TaskSys.h", "dtor", "detail::schedule_internal()::LocalTask::<dtor>", "void () =default"): dict(
+        b="int", thms=["schedule_internal_freed_once", "schedule_internal_nested_not_freed_on_stack_src"], ops=["int:parkburst", "int:nested"],
+        note="closure heap state released: parkburst's live_closure_state oracle; never while on the stack: nested"),
+    ("detail/TaskSys.h", "field", "detail::schedule_internal()::LocalTask::t", "TASK_T"): dict(b="int", thms=["schedule_internal_no_uaf_src"], ops=["int:burst", "int:nested"]),
+    ("detail/TaskSys.h", "method", "detail::schedule_internal()::LocalTask::ExecuteRange", "void (enki::TaskSetPartition, uint32_t)"): dict(
+        b="int", thms=["schedule_internal_no_uaf_src", "schedule_internal_nested_not_freed_on_stack_src", "schedule_once_internal"], ops=["int:burst", "int:nested"]),
+    ("detail/TaskSys.h", "function-template", "detail::schedule_internal", "void (TASK_T &&)"): dict(
+        b="int", thms=["schedule_internal_one_piece", "schedule_once_internal", "schedule_internal_task_life_src"], ops=["int:burst", "int:parkburst"]),
+    ("detail/TaskSys.h", "function", "detail::initTaskSystemInternal", "void (int)"): dict(b="int", thms=["teardown_runs_everything_exactly_once_src"], ops=["int:teardown"]),
+    ("detail/TaskSys.h", "function", "detail::numThreadsTaskSystemInternal", "int ()"): dict(b="int", skip="thread-count query: covered by C13"),
+    ("detail/TaskSys.h", "function", "detail::scheduleTaskInternal", "void (detail::Task *)"): dict(b="int", thms=["schedule_once_internal"], ops=["int:burst"]),
+    ("detail/TaskSys.h", "function", "detail::waitInternal", "void (detail::Task *)"): dict(b="int", thms=["glue_code_shape_src"], ops=["int:asynctask"]),
+    ("detail/async_task.inl", "class-template", "detail::AsyncTaskImpl", "struct"): dict(b=_ALLB, thms=["glue_code_shape_src"] + _AT_T, ops=["asynctask"]),
+    ("detail/async_task.inl", "ctor", "detail::AsyncTaskImpl::<ctor>", "void (TASK_T &&)"): dict(b=_ALLB, thms=["glue_code_shape_src", "asynctask_fcn_once"], ops=["asynctask", "destroy"]),
+    ("detail/async_task.inl", "method", "detail::AsyncTaskImpl::wait", "void ()"): dict(b=_ALLB, thms=["glue_code_shape_src", "asynctask_dtor_joins"], ops=["script:waitget", "destroy"]),
+    ("detail/async_task.inl", "class", "detail::AsyncTaskImpl::LocalTask", "struct : enki::ITaskSet"): dict(b="int", thms=["glue_code_shape_src", "pipe_claims_atomic_src"], ops=["int:asynctask", "int:ownerthief"]),
+    ("detail/async_task.inl", "ctor", "detail::AsyncTaskImpl::LocalTask::<ctor>", "void (TASK_T &&)"): dict(b="int", thms=["glue_code_shape_src"], ops=["int:asynctask"]),
+    ("detail/async_task.inl", "field", "detail::AsyncTaskImpl::LocalTask::t", "TASK_T"): dict(b="int", thms=["glue_code_shape_src"], ops=["int:asynctask"]),
+    ("detail/async_task.inl", "method", "detail::AsyncTaskImpl::LocalTask::ExecuteRange", "void (enki::TaskSetPartition, uint32_t)"): dict(
+        b="int", thms=["asynctask_fcn_once", "pipe_claims_atomic_src"], ops=["int:asynctask", "int:ownerthief"]),
+    ("detail/async_task.inl", "field", "detail::AsyncTaskImpl::task", "detail::AsyncTaskImpl::LocalTask"): dict(b="int", thms=["glue_code_shape_src"], ops=["int:asynctask", "int:destroy"]),
+    ("detail/async_task.inl", "field", "detail::AsyncTaskImpl::taskGroup", "tbb::task_group"): dict(b="tbb", thms=["glue_code_shape_src"], ops=["tbb:asynctask", "tbb:destroy"]),
+    ("detail/async_task.inl", "field", "detail::AsyncTaskImpl::thread", "std::thread"): dict(b="omp", thms=["glue_code_shape_src"], ops=["omp:asynctask", "omp:destroy"]),
+    ("detail/schedule.inl", "function-template", "detail::schedule_impl", "void (TASK_T)"): dict(b=_ALLB, thms=["glue_code_shape_src", "schedule_exactly_once", "schedule_debug_contract"], ops=_SCHED_OPS),
+    ("schedule.h", "function-template", "schedule", "void (TASK_T)"): dict(b=_ALLB, thms=["schedule_exactly_once", "glue_code_shape_src"], ops=_SCHED_OPS + ["async"]),
+    # enki::TaskScheduler (shared with C01): the members C02's theorems and scenarios rely on; the rest belongs to C01
+    (_TS, "member-definition", "enki::TaskScheduler::AddTaskSetToPipe", "void (enki::ITaskSet *)"): dict(b="int", thms=["schedule_internal_one_piece", "schedule_internal_burst_exactly_once"], ops=["int:burst", "int:parkburst"]),
+    (_TS, "member-definition", "enki::TaskScheduler::SplitAndAddTask", "void (uint32_t, enki::SubTaskSet, uint32_t)"): dict(b="int", thms=["schedule_internal_one_piece", "schedule_internal_burst_bounded"], ops=["int:parkburst"]),
+    (_TS, "member-definition", "enki::TaskScheduler::TryRunTask", "bool (uint32_t, uint32_t &)"): dict(b="int", thms=["schedule_internal_no_uaf_src", "schedule_once_internal"], ops=["int:burst", "int:steal"]),
+    (_TS, "member-definition", "enki::TaskScheduler::WakeThreads", "void (int32_t)"): dict(b="int", thms=["schedule_internal_no_lost_wakeup_src", "schedule_internal_wakeup_needs_both_fences"], ops=["int:wakeup"]),
+    (_TS, "member-definition", "enki::TaskScheduler::WaitForTasks", "void (uint32_t)"): dict(b="int", thms=["schedule_internal_no_lost_wakeup_src"], ops=["int:wakeup"]),
+    (_TS, "member-definition", "enki::TaskScheduler::WaitforAll", "void ()"): dict(b="int", thms=["teardown_runs_everything_exactly_once_src", "teardown_runs_everything_exactly_once"], ops=["int:teardown"]),
+    (_TS, "member-definition", "enki::TaskScheduler::WaitforAllAndShutdown", "void ()"): dict(b="int", thms=["shutdown_order_src"], ops=["int:teardown"]),
+    (_TS, "member-definition", "enki::TaskScheduler::StopThreads", "void (bool)"): dict(b="int", thms=["shutdown_order_src"], ops=["int:teardown"]),
+    (_TS, "member-definition", "enki::TaskScheduler::~TaskScheduler", "void () noexcept"): dict(b="int", thms=["shutdown_order_src"], ops=["int:teardown"]),
+    (_TS, "member-definition", "enki::TaskScheduler::WaitforTask", "void (const enki::ICompletable *)"): dict(b="int", thms=["asynctask_dtor_joins", "schedule_internal_nested_not_freed_on_stack_src"], ops=["int:asynctask", "int:nested"]),
+    (_TS, "member-definition", "enki::TaskScheduler::AddPinnedTask", "void (enki::IPinnedTask *)"): dict(b="int", skip=_C01 + " (pinned tasks are not reachable through rkcommon's API)"),
+    (_TS, "member-definition", "enki::TaskScheduler::RunPinnedTasks", "void ()"): dict(b="int", skip=_C01),
+    (_TS, "member-definition", "enki::TaskScheduler::RunPinnedTasks", "void (uint32_t)"): dict(b="int", skip=_C01),
+    (_TS, "member-definition", "enki::TaskScheduler::GetNumTaskThreads", "uint32_t () const"): dict(b="int", skip="thread count: covered by C13"),
+    (_TS, "member-definition", "enki::TaskScheduler::GetProfilerCallbacks", "enki::ProfilerCallbacks *()"): dict(b="int", skip="profiler hooks, not in the property"),
+    (_TS, "member-definition", "enki::TaskScheduler::Initialize", "void ()"): dict(b="int", skip="not called by rkcommon (Initialize(uint32_t) is): covered by C01/C13"),
+    (_TS, "member-definition", "enki::TaskScheduler::Initialize", "void (uint32_t)"): dict(b="int", skip="thread start-up: covered by C13 (facts_denote_construct_src) and C01"),
+    (_TS, "member-definition", "enki::TaskScheduler::StartThreads", "void ()"): dict(b="int", skip="thread start-up: covered by C13 (worker_loop_src) and C01"),
+    (_TS, "member-definition", "enki::TaskScheduler::TaskScheduler", "void ()"): dict(b="int", skip="member initialisation: covered by C01"),
+    (_TS, "member-definition", "enki::TaskScheduler::TaskingThreadFunction", "void *(void *)"): dict(b="int", skip="worker main loop: covered by C01 (C02 relies on it through TryRunTask / WaitForTasks above)"),
+}
+# facts about the implicitly-declared special members (harness `traits`, per backend): AsyncTask is neither copyable nor movable
+# (std::atomic member + user-declared destructor): the model's single owner / single destructor assumption
+TRAITS_EXPECTED = {"copy_constructible": "0", "copy_assignable": "0", "move_constructible": "0", "move_assignable": "0",
+                   "polymorphic": "1"}   # (AsyncTaskImpl's own copyability differs per backend and is unreachable: taskImpl is private in a non-copyable class; recorded)
+INV_ANCHORS = ["rkcommon/tasking/schedule.h", "rkcommon/tasking/async.h", "rkcommon/tasking/AsyncTask.h", "rkcommon/tasking/detail/schedule.inl",
+               "rkcommon/tasking/detail/async_task.inl", "rkcommon/tasking/detail/TaskSys.h", "rkcommon/tasking/detail/TaskSys.cpp",
+               "rkcommon/tasking/detail/enkiTS/TaskScheduler.cpp"]
+
+
+def inventory(ctx, hist_b, script_hist, traits, theorems):
+    sys.path.insert(0, os.path.join(ctx.verif, "tools", "declinv"))
+    import declinv
+    defs = {"tbb": ["-DRKCOMMON_TASKING_TBB"], "omp": ["-DRKCOMMON_TASKING_OMP", "-fopenmp"], "int": ["-DRKCOMMON_TASKING_INTERNAL"], "dbg": []}
+    inst = os.path.join(ctx.verif, "tools", "c02facts", "inst.cpp")
+    units = [(b, inst, "rkcommon::tasking", d) for b, d in defs.items()]
+    units += [("int:ts", os.path.join(ctx.repo, "rkcommon/tasking/detail/TaskSys.cpp"), "rkcommon::tasking", defs["int"]),
+              ("int:sch", os.path.join(ctx.repo, "rkcommon/tasking/detail/enkiTS/TaskScheduler.cpp"), "enki::TaskScheduler", [])]
+    try:
+        inv = declinv.inventory_union(ctx.repo, ctx.include_dir(), os.path.join(ctx.build, "ast"), units, INV_ANCHORS)
+    except Exception as e:
+        ctx.broken.append("inventory: enumeration of the declarations failed: %s" % str(e)[-300:])
+        return {}
+    label = lambda k: "%s %s `%s` : %s" % (k[0], k[1], k[2], k[3])
+    bname = {"dbg": "debug", "int": "internal", "omp": "omp", "tbb": "tbb"}
+    out = {}
+    for k, backs in sorted(inv.items()):
+        e = COVER.get(k)
+        if e is None:
+            ctx.broken.append("inventory: declaration not in the COVER table (new overload / member / changed signature): " + label(k))
+            continue
+        if ",".join(backs) != e["b"]:
+            ctx.broken.append("inventory: %s is declared under backends %s, COVER says %s" % (label(k), ",".join(backs), e["b"]))
+        if "skip" in e:
+            out[label(k)] = {"out_of_scope": e["skip"]}
+            continue
+        missing = [x for x in e["thms"] if x not in theorems]
+        if missing:
+            ctx.broken.append("inventory: %s names theorems that do not exist: %s" % (label(k), missing))
+        counts = {}
+        for op in e["ops"]:
+            if op.startswith("script:"):
+                counts[op] = script_hist.get(op[7:], 0)
+            elif op.startswith("fact:"):
+                counts[op] = sum(1 for b in traits if all(traits[b].get(x) == v for x, v in TRAITS_EXPECTED.items()))
+            elif ":" in op:
+                b, m = op.split(":")
+                counts[op] = hist_b.get(bname.get(b, b) + ":" + m, 0)
+            else:
+                counts[op] = sum(v for kk, v in hist_b.items() if kk.split(":")[1] == op and kk.split(":")[0] in [bname[x] for x in backs])
+        zero = [o for o, c in counts.items() if c == 0]
+        if zero:
+            ctx.broken.append("inventory: covered declaration %s was not executed in this run: %s" % (label(k), ", ".join(zero)))
+        out[label(k)] = {"theorems": e["thms"], "executed": counts}
+    for k in COVER:
+        if k not in inv:
+            ctx.broken.append("inventory: COVER entry whose declaration vanished or changed signature: " + label(k))
+    for b, tr in traits.items():
+        bad_t = {x: tr.get(x) for x, v in TRAITS_EXPECTED.items() if tr.get(x) != v}
+        if bad_t:
+            ctx.broken.append("inventory: implicit special members of AsyncTask changed on the %s backend (%s): the model assumes a single owner "
+                              "(not copyable, not movable)" % (b, bad_t))
+    return out
+
+
 def kv(line):
     return dict(t.split("=", 1) for t in line.split()[1:] if "=" in t)
 
@@ -78,6 +228,7 @@ def run(ctx):
     dreps = ctx.pick(6, 24)
     found = {}      # kind -> list of dict(backend, args, observed, required, stderr)
     hist = {}
+    hist_b, script_hist, traits = {}, {}, {}
 
     def bad(kind, backend, args, observed, required, stderr=""):
         found.setdefault(kind, []).append(dict(backend=backend, harness_args=" ".join(args), observed=observed,
@@ -87,6 +238,7 @@ def run(ctx):
         rc, out, err = ctx.run_exe(hx[prefix + b], args, timeout=timeout)
         lines = [l for l in out.split("\n") if l.strip()]
         hist[args[0]] = hist.get(args[0], 0) + 1
+        hist_b[b.split("(")[0] + ":" + args[0]] = hist_b.get(b.split("(")[0] + ":" + args[0], 0) + 1
         return rc, lines, err
 
     trace_cases = []   # (backend, args, line, fields)
@@ -256,6 +408,10 @@ def run(ctx):
                     ctx.nontriv(("nested", b, T, f.get("wait")))
             if len(nl) != 2:
                 bad("schedule-nested", b, args, "only %d of 2 result lines" % len(nl), "both wait kinds complete")
+        # ---- facts about AsyncTask's implicitly-declared special members (inventory)
+        rc, lines, err = run_mode(b, ["traits"], timeout=60)
+        if rc == 0 and lines:
+            traits[b] = kv(lines[-1])
         # ---- async()
         args = ["async", str(areps)]
         rc, lines, err = run_mode(b, args)
@@ -289,6 +445,7 @@ def run(ctx):
                 f = kv(l)
                 ctx.count()
                 sc = f["script"]
+                script_hist[sc] = script_hist.get(sc, 0) + 1
                 vals = [] if f["vals"] == "-" else f["vals"].split(",")
                 req = []
                 if vals != ["result"] * NGETS[sc]:
@@ -384,6 +541,10 @@ def run(ctx):
             if rc != 0:
                 bad("data-race", b + "(tsan)", args, "harness rc=%d: %s" % (rc, san_summary(err)), "no data race", err)
 
+    # ---- inventory closure
+    ctx.cov["inventory"] = inventory(ctx, hist_b, script_hist, traits, set(ctx.cov.get("theorems", [])))
+    ctx.cov["inventory_declarations"] = len(ctx.cov["inventory"])
+    ctx.cov["asynctask_special_member_traits"] = traits
     # ---- report: one violation per kind, the first concrete case as the failing input
     for kind, items in sorted(found.items()):
         first = items[0]
